@@ -232,22 +232,85 @@ def run_case(part, kind, flags):
         shutil.rmtree(d, ignore_errors=True)
 
 
+ASYNC_KINDS = ["wf_ok", "wf_fail2", "wf_nested", "wf_nested_fail", "wf_par", "py_split"]
+
+
+def async_case(part, kind, flags):
+    """The asynchronous path (Job.run_async, virtual worker on its default schedule) with the FileMessenger's DEFAULT
+    location (<cwd>/messages at the time a record is sent): every activity must have exactly one start and one end record
+    and both must be in the same message directory (otherwise no directory holds a consistent record of the job)."""
+    import tempfile
+    from pathlib import Path
+    from pydra.utils.messenger import AuditFlag, FileMessenger
+    from vt import e3_vloop as E, wfprog as WP, tasks_c35 as T
+    d = Path(tempfile.mkdtemp(dir=part.scratch))
+    launch, root = d / "launch", d / "cache"
+    launch.mkdir()
+    root.mkdir()
+    before = os.getcwd()
+    exe = T.write_script(part.scratch)
+    try:
+        os.chdir(launch)
+        for task in make_tasks(kind, exe):
+            try:
+                WP.with_watchdog(lambda: E.run_execution(lambda: task, root, [], submitter_kwargs=dict(
+                    audit_flags=getattr(AuditFlag, flags), messengers=FileMessenger())), WATCHDOG_S)
+            except WP.Hang:
+                pass
+            os.chdir(launch)
+        by_dir = {}
+        for f in glob.glob(str(d / "**" / "*.jsonld"), recursive=True):
+            by_dir.setdefault(os.path.dirname(f), []).append(f)
+        where_start, where_end = {}, {}
+        for mdir, files in by_dir.items():
+            for r in read_records(mdir):
+                if "startedAtTime" in r and r.get("@type") == "job":
+                    where_start.setdefault(r.get("@id"), []).append(os.path.relpath(mdir, d))
+                if "endedAtTime" in r and "errored" in r:
+                    where_end.setdefault(r.get("@id"), []).append(os.path.relpath(mdir, d))
+        case = dict(kind=kind, flags=flags, scenario="async-default-dir")
+        part.case(key=("async", kind, flags), nontrivial=True)
+        bad = None
+        for aid in set(where_start) | set(where_end):
+            s_, e_ = where_start.get(aid, []), where_end.get(aid, [])
+            if len(s_) != 1 or len(e_) != 1:
+                bad = ("async-start-end-count", f"activity {str(aid)[-8:]}: {len(s_)} start / {len(e_)} end record(s)")
+                break
+            if s_[0] != e_[0]:
+                bad = ("activity-records-split-across-directories",
+                       f"activity {str(aid)[-8:]}: start record in {s_[0]!r}, end record in {e_[0]!r}")
+                break
+        if not where_start:
+            part.coverage.setdefault("async_no_records", []).append(f"{kind}/{flags}")
+        if bad:
+            part.violation(bad[0], case, f"{kind} {flags} async worker, default message directory: {bad[1]}")
+    finally:
+        os.chdir(before)
+        shutil.rmtree(d, ignore_errors=True)
+
+
 def work(part, chunk):
     for kind, flags in chunk:
-        run_case(part, kind, flags)
+        if kind.startswith("async:"):
+            async_case(part, kind[6:], flags)
+        else:
+            run_case(part, kind, flags)
 
 
 def run(ctx):
     from vt.par import pmap
     kinds = list(POOL)
     items = [(k, f) for k in kinds for f in FLAGS]
+    items += [("async:" + k, f) for k in ASYNC_KINDS for f in FLAGS]
+    ctx.coverage["async_default_dir_cases"] = len(ASYNC_KINDS) * len(FLAGS)
     ctx.coverage["pool"] = kinds
     ctx.coverage["flags"] = FLAGS
     ctx.coverage["scenarios"] = SCENARIOS
     ctx.rule = ("every pool entry x {PROV, ALL} x {fresh, again, rerun}; non-trivial = more than one executed job "
                 "(nested activities), a failing job, or a resubmission")
     ctx.assumptions += [
-        "debug worker only (the statement's quantifier); the asynchronous path (run_async) is not covered",
+        "debug worker for the full oracle; the asynchronous path (run_async, virtual worker, default schedule) is covered for workflow "
+        "entries with the messenger's default location: one start and one end record per activity, both in the same message directory",
         "jobs are matched to activities by count and by the multiset of errored flags (records carry no job identity "
         "that the statement defines)",
         "cases whose real execution differs from the reference table (job set/body log) are skipped, listed in "
@@ -260,6 +323,9 @@ def run(ctx):
 def replay(ctx, case):
     from vt.runner import Part
     part = Part(scratch=ctx.scratch)
+    if case.get("scenario") == "async-default-dir":
+        async_case(part, case["kind"], case["flags"])
+        return part.violations[0][2] if part.violations else None
     run_case(part, case["kind"], case["flags"])
     for sig, c, text in part.violations:
         if c.get("scenario") == case.get("scenario"):
